@@ -1,7 +1,15 @@
 #!/usr/bin/env bash
 for p in $(pgrep -f "seedloop.sh"); do kill $p 2>/dev/null; done
 for p in $(pgrep -f "seedcheck.py"); do kill $p 2>/dev/null; done
-sleep 1
+for n in mut mut2 mut3; do for p in $(pgrep -f "/tmp/ag-$n/verif/"); do kill $p 2>/dev/null; done; done
+sleep 2
+python3 - <<'PY'
+p='/verif/notes/seed-results.txt'
+import os
+if os.path.exists(p):
+    L=[l for l in open(p).read().splitlines() if (' CAUGHT' in l or ' MISSED' in l)]
+    open(p,'w').write("\n".join(L)+("\n" if L else ""))
+PY
 for n in mut mut2 mut3; do
   git -C /tmp/ag-$n/repo checkout -q -- . ; git -C /tmp/ag-$n/repo clean -fdq
   git -C /tmp/ag-$n/repo checkout -q --detach main 2>/dev/null; git -C /tmp/ag-$n/repo reset -q --hard main
@@ -9,7 +17,7 @@ for n in mut mut2 mut3; do
   mkdir -p /tmp/ag-$n/verif/scratch /tmp/ag-$n/verif/replays /tmp/ag-$n/verif/evidence; rm -f /tmp/ag-$n/stop
   git -C /tmp/ag-$n/repo log --oneline | head -1
 done
-nohup /verif/tools/seedloop.sh mut "/tmp/sd-s[1-3]" > /tmp/ag-mut/seedloop.log 2>&1 &
-nohup /verif/tools/seedloop.sh mut2 "/tmp/sd-s[4-5]" > /tmp/ag-mut2/seedloop.log 2>&1 &
-nohup /verif/tools/seedloop.sh mut3 "/tmp/sd-s[6-7]" > /tmp/ag-mut3/seedloop.log 2>&1 &
+nohup /verif/tools/seedloop.sh mut /tmp/sd-s1 /tmp/sd-s2 /tmp/sd-s3 /tmp/sd-s8 /tmp/sd-s9 > /tmp/ag-mut/seedloop.log 2>&1 &
+nohup /verif/tools/seedloop.sh mut2 /tmp/sd-s4 /tmp/sd-s5 /tmp/sd-s10 /tmp/sd-s11 > /tmp/ag-mut2/seedloop.log 2>&1 &
+nohup /verif/tools/seedloop.sh mut3 /tmp/sd-s6 /tmp/sd-s7 /tmp/sd-s12 > /tmp/ag-mut3/seedloop.log 2>&1 &
 sleep 1
